@@ -69,7 +69,7 @@ Proof.
   intros h l. induction l as [| x l IH]; intros acc Hne Hok; [congruence |].
   inversion Hok as [| ? ? [Hx Hp] Hl]; subst.
   cbn [map fold_left length]. rewrite pstep_wnum. cbn [flags_of].
-  rewrite (classify_double _ _ _ Hx). cbn [on_tok]. unfold positive_x in Hp. rewrite Hp.
+  rewrite (classify_double _ _ _ Hx). cbn [on_tok]. unfold positive_x in Hp. rewrite Hp. cbn [negb].
   destruct l as [| y l].
   - cbn [length map fold_left rev]. reflexivity.
   - cbn [length] in *. rewrite IH by (congruence || assumption).
